@@ -149,6 +149,17 @@ pub fn registry_hygiene() {
     let _ = Addr::<Probe<2>>::unregister().now_or_never();
 }
 
+/// The initial "a live instance of type 1 is registered" state. With debug assertions on,
+/// from_registry pings the fresh instance, which cannot complete inside scene setup (no task
+/// runs there); spawning a default instance and registering it gives the same state.
+fn preregister() -> Addr<Probe<1>> {
+    if cfg!(debug_assertions) {
+        block_inline(Probe::<1>::default().spawn().register()).expect("register on an empty registry").0
+    } else {
+        block_inline(Probe::<1>::from_registry())
+    }
+}
+
 struct S {
     /// per client: (service type, op)
     programs: Vec<Vec<(u8, ROp)>>,
@@ -170,7 +181,7 @@ impl Scene for S {
             w.default_role[2] = 2;
         });
         let pre: Option<Addr<Probe<1>>> = if self.preregistered {
-            Some(block_inline(Probe::<1>::from_registry()))
+            Some(preregister())
         } else {
             None
         };
@@ -181,6 +192,105 @@ impl Scene for S {
     fn check(&self, t: &Trace) -> Vec<Violation> {
         check_history(t, &self.programs, "C08")
     }
+}
+
+// ------------------------------------------------------------------ services that use services
+
+/// Service type 1 looks up service type 2 in its `started()` (a service that depends on another
+/// one). Lookups of either type, from any number of clients, still return, every type still has
+/// exactly one instance, and the dependent lookup itself succeeded.
+struct Nested {
+    programs: Vec<Vec<(u8, ROp)>>,
+}
+
+impl Scene for Nested {
+    fn roles(&self) -> Vec<RoleCfg> {
+        let mut r = vec![RoleCfg::default(), RoleCfg::default(), RoleCfg::default()];
+        r[1].started_actions = vec![Action::LookupService { k: 2 }];
+        r
+    }
+    fn pre(&self) {
+        registry_hygiene();
+    }
+    fn setup(&self, exec: &Exec) {
+        W.with(|w| {
+            let mut w = w.borrow_mut();
+            w.default_role[1] = 1;
+            w.default_role[2] = 2;
+        });
+        for (c, p) in self.programs.iter().enumerate() {
+            exec.spawn_client(c as u8, run_reg_client(c as u8, None, None, p.clone()));
+        }
+    }
+    fn check(&self, t: &Trace) -> Vec<Violation> {
+        let an = crate::trace::An::new(t.log);
+        let mut out = vec![];
+        for (c, prog) in self.programs.iter().enumerate() {
+            for (i, (k, op)) in prog.iter().enumerate() {
+                let Some(o) = an.op(c as u8, i as u16) else { continue };
+                crate::check::oblige("registry-op-resolves");
+                match o.res {
+                    None => out.push(Violation {
+                        clause: "registry-op-resolves",
+                        key: format!("C08/registry-op-hangs/{op:?}/service-started-by-a-service"),
+                        detail: format!("client {c} op {i} ({op:?}<{k}>) never returned; service 1 looks up service 2 in its started()"),
+                    }),
+                    Some(Res::Reg { present: true, ident: Some(_) }) | Some(Res::Ok) => {}
+                    // the non-spawning queries may come before anything is registered
+                    Some(_) if matches!(op, ROp::TryFromRegistry | ROp::AlreadyRunning) => {}
+                    Some(r) => out.push(Violation {
+                        clause: "one-live-instance",
+                        key: format!("C08/nested-lookup-result/{op:?}"),
+                        detail: format!("client {c} op {i} ({op:?}<{k}>) returned {r:?}; expected the live instance"),
+                    }),
+                }
+            }
+        }
+        if t.res.end == crate::vexec::EndReason::Quiescent && out.is_empty() {
+            for k in [1u8, 2] {
+                let made = t.log.iter().filter(|e| matches!(e.ev, Ev::New { a, .. } if a == k)).count();
+                let wanted = self.programs.iter().flatten().any(|(kk, _)| *kk == k) || k == 2;
+                if made != usize::from(wanted) {
+                    out.push(Violation {
+                        clause: "one-live-instance",
+                        key: format!("C08/nested-lookup-instances/type={k}"),
+                        detail: format!("{made} instances of service type {k} were created; expected {}", usize::from(wanted)),
+                    });
+                }
+            }
+            if !t.log.iter().any(|e| matches!(e.ev, Ev::Ctx { a: 1, op: crate::world::CtxOp::Lookup, ok: true })) {
+                out.push(Violation {
+                    clause: "one-live-instance",
+                    key: "C08/nested-lookup-failed".into(),
+                    detail: "service 1's lookup of service 2 from started() did not yield a live instance".into(),
+                });
+            }
+        }
+        out
+    }
+}
+
+fn nested_cases(tier: Tier) -> Vec<Case> {
+    let f = |k: u8| (k, ROp::FromRegistry);
+    let progs: Vec<Vec<Vec<(u8, ROp)>>> = vec![
+        vec![vec![f(1)]],
+        vec![vec![(1, ROp::Setup), f(1)]],
+        vec![vec![f(1), f(2)]],
+        vec![vec![f(2), f(1)]],
+        vec![vec![f(1)], vec![f(1)]],
+        vec![vec![f(1)], vec![f(2)]],
+        vec![vec![f(1)], vec![f(2)], vec![f(1)]],
+        vec![vec![f(1), (2, ROp::TryFromRegistry)], vec![(2, ROp::AlreadyRunning), f(2)]],
+    ];
+    progs
+        .into_iter()
+        .map(|p| Case {
+            desc: format!("registry [service 1 looks up service 2 in started()] programs={}", p.iter().map(|c| c.iter().map(|(k, o)| format!("{o:?}<{k}>")).collect::<Vec<_>>().join(",")).collect::<Vec<_>>().join(" | ")),
+            exec: ExecCfg { horizon: 30, yield_holding_lock: true, ..ExecCfg::default() },
+            bound: if p.len() >= 3 { Some(if tier == Tier::Quick { 4 } else { 6 }) } else { None },
+            scene: Box::new(Nested { programs: p }),
+        })
+        .collect()
 }
 
 // ------------------------------------------------------------------ history + linearizability
@@ -478,9 +588,13 @@ fn push_case(v: &mut Vec<Case>, programs: Vec<Vec<(u8, ROp)>>, preregistered: bo
             .collect::<Vec<_>>()
             .join(" | ")
     );
+    // the holder of the registry lock is suspended once while holding it (other tasks run
+    // meanwhile, as on a multi-threaded runtime) in the two-client one-op histories and in the
+    // two-type histories; the longer histories keep lock acquisition atomic with its use
+    let holding = (programs.len() == 2 && programs.iter().all(|p| p.len() == 1)) || programs.iter().flatten().any(|(k, _)| *k == 2);
     v.push(Case {
         desc,
-        exec: ExecCfg::default(),
+        exec: ExecCfg { yield_holding_lock: holding, ..ExecCfg::default() },
         bound,
         scene: Box::new(S { programs, preregistered }),
     });
@@ -491,7 +605,7 @@ fn needs_held(op: ROp) -> bool {
 }
 
 fn cases(tier: Tier) -> Vec<Case> {
-    let mut v = vec![];
+    let mut v = nested_cases(tier);
     let a = &ALPHABET;
     for pre in [false, true] {
         // one client, two ops (sequential semantics incl. stop then lookup)
@@ -511,6 +625,11 @@ fn cases(tier: Tier) -> Vec<Case> {
                 }
                 push_case(&mut v, vec![vec![(1, x)], vec![(1, y)]], pre, None);
             }
+        }
+        // (the debug-assertions build repeats the short histories only in its quick tier: every
+        // on-demand spawn there is followed by a ping, which multiplies the schedules)
+        if cfg!(debug_assertions) && tier == Tier::Quick {
+            continue;
         }
         // two clients, [2,1]
         for &x in a {
